@@ -19,6 +19,19 @@ CHECKS = {
         'Trusted: TLC, the renderer abstract line -> text (harness/c18_tap.py), the projection of event objects. '
         'Alphabet limits listed in the evidence assumptions.',
         'DESIGN.md section 5, C18'),
+    'C02': (
+        'TLC: reference grammar (specs/lang/MesonGrammar) total / drops no accepted token / extents nest on all token '
+        'sequences <= N over four alphabets; trace validation of the real Lexer+Parser+RawPrinter (same bounded spaces '
+        'rendered with trivia, every build file in the repository, token mutants, soups) by TraceGrammar.tla',
+        'Model checking of the reference grammar (every token sequence up to the bound over four token alphabets: '
+        'totality, no accepted token dropped, extents nest, call/array extents delimit name..closer) plus trace '
+        'validation of the real parser: every sequence of the same bounded spaces rendered to text with seeded trivia, '
+        'all build files shipped in the repository, token-level mutants and soups are parsed by the real mparser.Parser '
+        'and re-printed by RawPrinter; TLC judges each recorded outcome (no internal error, located rejection, byte-exact '
+        're-print, FunctionNode/ArrayNode extents equal to the reference extents). Character soups check totality.',
+        'Trusted: TLC, the token renderer and the line/column -> token index conversion in harness/lang_driver.py; for '
+        'corpus files the real Lexer supplies the tokens. Byte-exact re-printing is observed by the harness and fed to the trace.',
+        'DESIGN.md section 5, C02'),
 }
 
 NOT_YET = {}
